@@ -52,7 +52,7 @@ def check(ctx):
             st = k.get('start', args[0] if args else None)
             en = k.get('end', args[1] if len(args) > 1 else None)
             ok = dates[0] == 'call' and dates[1] == ('ext', 'pandas.date_range') and st == A('self', 'start_date') and en == A('self', 'end_date') and \
-                k.get('freq') == ('fmt', ('str', 'W-%s'), A('self', 'weekday')) and not (set(k) - {'start', 'end', 'freq'})
+                k.get('freq') == ('fmt', ('str', 'W-%s'), ('tuple', (A('self', 'weekday'),))) and not (set(k) - {'start', 'end', 'freq'})
             ctx.require(ok, 'C13.S1', "weekly dates = pd.date_range(start, end, freq='W-<weekday>') over the unmodified range", fn.site(), fmt(dates)[:200], key='C13.S1|weekly|range')
             ctx.sample({'rule': 'C13.S1', 'weekly': fmt(dates)})
     # weekday guard (S2)
@@ -91,7 +91,7 @@ def check(ctx):
     if ctx.require(ok1 if ok1 else None, 'C13.S1', 'daily schedule is straight-line', fn.site()):
         dates = stamped(ctx, 'C13.S1', c, fn, ps[0].value, None, 'market_time')
         if dates is not None:
-            ok, why = c12.is_business_daily_range(dates, A('self', 'start_date'), A('self', 'end_date'))
+            ok, why = c12.is_business_daily_range(dates, A('self', 'start_date'), A('self', 'end_date'), normalized=True)
             ctx.require(ok, 'C13.S1', 'daily dates = the business days of the unmodified range', fn.site(), '%s (%s)' % (fmt(dates)[:160], why), key='C13.S1|daily|range')
     # ---- end of month
     c = 'EndOfMonthRebalance'
@@ -118,9 +118,11 @@ def check(ctx):
     isb = ('call', ('ext', 'BOOL'), (('call', ('ext', 'LEN'), (('call', ('ext', 'pandas.bdate_range'), (sd, sd), ()),), ()),), ())
     for p in ps:
         biz = None
+        from ..lib import as_len_test
         for cnd, v, _ in p.conds:
-            if cnd == isb or cnd == ('call', ('ext', 'LEN'), (('call', ('ext', 'pandas.bdate_range'), (sd, sd), ()),), ()):
-                biz = v
+            t = as_len_test(cnd, v)
+            if t is not None and t[0] == ('call', ('ext', 'pandas.bdate_range'), (sd, sd), ()):
+                biz = t[1] == 'nonempty'
         if biz is None or p.outcome != 'return':
             ctx.undecided('C13.S1', 'buy-and-hold branches on whether the start is a business day', fn.site(), cond_str(p)[:160])
             continue
